@@ -42,7 +42,7 @@ SHARDS = {"quick": 4, "thorough": 16}
 FLOORS = {"compared_flat": 5000, "compared_json": 5000, "compared_decoration": 5000, "fields_total": 10000,
           "fields_repeated": 500, "fields_with_path": 3000, "fields_end_call": 300, "poisoned_values": 5000,
           "agree": 3000, "repeated_counter_calls": 50, "fields_terminal_call_after_index_path": 800, "fields_path_3plus": 1500,
-          "reentrant_flatten_between_repeats": 1500}
+          "reentrant_flatten_between_repeats": 1500, "fields_with_wrapper_colliding_attribute_names": 1500}
 READY = True
 
 
@@ -160,7 +160,12 @@ INTS = [0, 1, -1, 7, 42, -42, 255, 65536, 10 ** 12, 10 ** 30]
 FLOATS = ["3.14159", "-0.5", "2.0", "1e10", "1e-07", "123456.789", "nan", "inf", "0.1"]
 STRS = ["", "text", "caf\xe9", "中文", "{", "}", "{x}", "a b", "li\nne", "\ud800", "tab\t", "q'\"", "0", "x" * 20]
 ATTRS = ["attr", "x", "name", "sub", "val", "m", "get"]
-DKEYS = ["k", "key", "a1", "x", "main-table", "a b"]
+# names that could collide with attributes of the formatter's own wrapper object.  Not in the pool, because the
+# unchanged tree already renders them differently on the two sides (PotentialCallWrapper's own attributes shadow
+# them: _wrapped, __getattr__, __init__, __format__, __repr__) or because they are not plain instance attributes /
+# not deterministic (__class__, __dict__).
+COLLIDE = ["value", "wrapped", "_value", "__call__", "__slots__"]
+DKEYS = ["k", "key", "a1", "x", "main-table", "a b", "value", "__slots__"]
 
 
 def g_value(rng, depth=0, inside=False):
@@ -198,7 +203,7 @@ def g_value(rng, depth=0, inside=False):
             return ["counter", ["int", rng.choice([0, 10, 41])]]
         v = g_value(rng, depth + 1)
         return v if v[0] in ("call", "counter", "callflat") else ["call", v]  # "x()()" is not part of the format syntax
-    attrs = [[a, g_value(rng, depth + 1)] for a in rng.sample(ATTRS, rng.randrange(1, 4))]
+    attrs = [[a, g_value(rng, depth + 1)] for a in rng.sample(ATTRS + COLLIDE, rng.randrange(1, 4))]
     return ["obj", rng.choice(["o", "p", "q\xfc"]), rng.choice(["plain", "plain", "custom"]), attrs]
 
 
@@ -212,12 +217,20 @@ def g_struct(rng, depth):
 
     def obj(d):
         attrs = [["describe", ["call", leafval()]], ["name", leafval()]]
+        if rng.random() < 0.4:
+            attrs.append([rng.choice(COLLIDE), ["call", leafval()] if rng.random() < 0.3 else leafval()])
         if d > 0:
-            for a in rng.sample(["sub", "items", "get", "val"], rng.randrange(1, 3)):
+            for a in rng.sample(["sub", "items", "get", "val"] + COLLIDE, rng.randrange(1, 3)):
                 v = g_struct(rng, d - 1)
                 attrs.append([a, ["call", v] if rng.random() < 0.2 else v])   # a called attribute mid-path
         if rng.random() < 0.15:
             attrs.append(["m", ["counter", ["int", 0]]])
+        seen, uniq = set(), []
+        for a in attrs:   # one recipe per attribute name (the walker and the built object must agree)
+            if a[0] not in seen:
+                seen.add(a[0])
+                uniq.append(a)
+        attrs = uniq
         rng.shuffle(attrs)
         return ["obj", rng.choice(["o", "p", "q\xfc"]), rng.choice(["plain", "plain", "custom"]), attrs]
 
@@ -384,6 +397,9 @@ def g_case(rng):
     return {"values": [[k, recipes[k]] for k in recipes], "fields": fields, "parts": parts, "deco": [[k, deco[k]] for k in deco]}
 
 
+_SEGMENTS = __import__("re").compile(r"[.\[]([A-Za-z_]+)")
+
+
 def render(case, override=None):
     """Format string of the case; override: {field index: replacement text}."""
     out = []
@@ -532,6 +548,8 @@ def check_case(ctx, case, idx=None):
         sh = f.get("shape", "")
         if sh:
             ctx.seen("path_shapes", sh)
+        if any(seg in COLLIDE for seg in _SEGMENTS.findall(f["name"])):
+            ctx.count("fields_with_wrapper_colliding_attribute_names")
         if sh.endswith("C") and sh.count("C") == 1 and "I" in sh:
             ctx.count("fields_terminal_call_after_index_path")   # {a[0].m()}, {a.x[k].m()}, {a[k][0].m()} ...
         if len(sh.replace("C", "")) >= 3:
